@@ -15,6 +15,8 @@ Arg(p)      == [op |-> "arg", p |-> p, fn |-> "", v |-> ""]
 Lit(v)      == [op |-> "lit", p |-> "", fn |-> "", v |-> v]
 Slice(p)    == [op |-> "slice", p |-> p, fn |-> "", v |-> ""]
 Call(fn, a) == [op |-> "call", p |-> "", fn |-> fn, v |-> "", a |-> a]
+\* a source path through a pointer member: undefined when that pointer is nil
+Via(ptr, p) == [op |-> "via", p |-> p, fn |-> ptr, v |-> ""]
 None == [x \in {} |-> Src("")]
 
 F(assign, sites, errsites) == [assign |-> assign, sites |-> sites, errsites |-> errsites]
@@ -25,6 +27,7 @@ Frag ==
   @@ "str"     :> F("Fstr" :> Call("S", Src("Fstr")), {"S"}, {})             \* String() under :stringer
   @@ "getter"  :> F("Fgetter" :> Call("Fgetter", Src("GtBack")), {"Fgetter"}, {})
   @@ "arg"     :> F("Farg" :> Arg("ARG0"), {}, {})                           \* :map $2 Farg
+  @@ "argnest" :> F(("Fan.X" :> Arg("ARG0")) @@ ("Fan.Y" :> Src("Fan.Y")), {}, {})   \* :map $2 Fan.X below a struct that is assignable as a whole
   @@ "lit"     :> F("Flit" :> Lit("42"), {}, {})                             \* :literal Flit 42
   @@ "convV"   :> F("FconvV" :> Call("CvV", Src("FconvV")), {"CvV"}, {})
   @@ "convP"   :> F("FconvP" :> Call("CvP", Src("FconvP")), {"CvP"}, {})     \* converter taking *int
@@ -34,6 +37,7 @@ Frag ==
   @@ "slloop"  :> F("Fslloop" :> Slice("Fslloop"), {}, {})                   \* []EW -> []EW (element loop)
   @@ "slcast"  :> F("Fslcast" :> Slice("Fslcast"), {}, {})                   \* []int -> []int64 under :typecast
   @@ "sltags"  :> F("Fsltags" :> Slice("Fsltags"), {}, {})                   \* defined slice type
+  @@ "slget"   :> F("Fslget" :> Slice("GslBack"), {}, {})                    \* the source is a getter returning its backing slice
   @@ "slptr"   :> F("Fslptr" :> Slice("Fslptr"), {}, {})                     \* []*int -> []*int (fresh array of the same pointers)
   @@ "slstruct":> F("Fslstruct" :> Slice("Fslstruct"), {}, {})               \* []EN -> []EN
   @@ "slnest"  :> F(("Fsn.L" :> Slice("Fsn.L")) @@ ("Fsn.K" :> Src("Fsn.K")), {}, {})   \* a slice member of a nested by-value struct
@@ -42,6 +46,7 @@ Frag ==
   @@ "nestE2"  :> F(("FnestD.In.X" :> Call("CvE3", Src("FnestD.In.X"))) @@ ("FnestD.In.Y" :> Src("FnestD.In.Y")) @@ ("FnestD.K" :> Src("FnestD.K")),
                     {"CvE3"}, {"CvE3"})                                     \* error-returning converter two structs deep
   @@ "ptr"     :> F("Fptr" :> Src("Fptr"), {}, {})                           \* pointer value copied
+  @@ "npath"   :> F("Fnp" :> Via("Pn", "Pn.X"), {}, {})                      \* :map Pn.X Fnp through the pointer member Pn *EN
   @@ "skip"    :> F(None, {}, {})                                            \* :skip Fskip - the leaf keeps its value
   @@ "nomatch" :> F(None, {}, {})                                            \* no source - the leaf keeps its value
 AllKinds == DOMAIN Frag
